@@ -19,6 +19,11 @@ case = {
   'fin2':    like fin (never 'wait'); how a swallowing handler ends
   'ext':     'none'|'reset'|'close'      what the environment does (client RST_STREAM / Server.close())
   'ext_at':  None | k                    during the k-th Sleep (0-based); otherwise when the handler blocks
+  'paused0': bool                        the transport is paused before the request arrives (the reply path of
+                                         _abort / __aexit__ has to wait for write_ready); writing is resumed
+                                         once the handler coroutine has ended or when it is never called
+  'hooks_await': bool                    listeners on RecvRequest / RecvMessage / SendInitialMetadata /
+                                         SendMessage / SendTrailingMetadata really suspend (await asyncio.sleep(0))
 }
 
 The handler program is interpreted as this Python coroutine:
@@ -218,16 +223,22 @@ def _run(case, loop):
 
     se = wire.ServerEnd(loop, [Service('v.S', {'M': (handler_outer, case['card'])})])
     box['se'] = se
-    from grpclib.events import listen, SendInitialMetadata, SendMessage, SendTrailingMetadata
+    from grpclib.events import (listen, SendInitialMetadata, SendMessage, SendTrailingMetadata, RecvRequest,
+                                RecvMessage)
+    hooks_await = bool(case.get('hooks_await'))
 
     def hook(kind):
         async def cb(event):
+            if hooks_await:
+                await asyncio.sleep(0)       # a real suspension: a pending cancellation would land here
             if st['hook'] == kind:
                 raise HookError('listener failure')
         return cb
     listen(se.server, SendInitialMetadata, hook('I'))
     listen(se.server, SendMessage, hook('M'))
     listen(se.server, SendTrailingMetadata, hook('T'))
+    listen(se.server, RecvRequest, hook('-'))
+    listen(se.server, RecvMessage, hook('-'))
     se.server._server = type('S', (), {'close': lambda s: None, 'wait_closed': None})()
     se.server._server_closed_fut = loop.create_future()
     loop.run_quiet(1.0)
@@ -257,6 +268,8 @@ def _run(case, loop):
                 peer.h2.send_data(sid, b'', end_stream=True)
         else:
             peer.h2.send_data(sid, data, end_stream=eof)
+    if case.get('paused0'):
+        se.transport.pause()
     peer.flush()                       # the whole request arrives before the handler task's first step
     t0 = loop.time()
     loop.run_quiet(4.0)
@@ -265,16 +278,16 @@ def _run(case, loop):
 
     def running():
         return task is not None and not task.done()
-    if running() and not st['finished'] and ext != 'none' and st['fired'] is None:
+    if running() and st['started'] and not st['finished'] and ext != 'none' and st['fired'] is None:
         st['phase'] = 'ext'
         fire()
         loop.run_quiet(4.0)
-    if running() and not st['finished']:
+    if running() and st['started'] and not st['finished']:
         # only a deadline can still end this call: let virtual time pass (finite horizon)
         st['phase'] = 'deadline'
         loop.run_quiet(4000.0)
-    if se.transport.paused and st['finished']:
-        # the handler coroutine has ended; the environment lets the server write again
+    if se.transport.paused and (st['finished'] or not st['started']):
+        # the handler coroutine has ended (or is never called); the environment lets the server write again
         se.transport.resume()
         loop.run_quiet(4.0)
     hang = running()
